@@ -364,11 +364,42 @@ def run(ctx):
                                 pl = op_place(v[2]['rv']['op'])
                                 if pl is not None and idsrc in [e.get('n') for e in pl['p'] if isinstance(e, dict)]:
                                     ok = True
+                                # the payload of this function's own Option parameter: `match parent_id { Some(id) => helper(.., id), .. }`
+                                if pl is not None and idsrc == 'arg' and 1 <= pl['l'] <= b.d['argc'] and not b.defs().get(pl['l']):
+                                    ok = True
                             if k == 'place' and idsrc in [e.get('n') for e in v['p'] if isinstance(e, dict)]:
                                 ok = True
                             pl0 = op_place(tm['args'][n_arg - 1])
                             if pl0 is not None and idsrc in [e.get('n') for e in pl0['p'] if isinstance(e, dict)]:
                                 ok = True
+            if not ok:
+                # ... or the helper is called from a closure handed to Option::and_then / map on the recorded parent id
+                for cb in [x for x in mir.bodies if x.id.startswith(b.id + '::{closure')]:
+                    for bb, tm in cb.calls():
+                        cn = strip_generics(tm.get('callee') or '')
+                        for flat in walkers.get(cn, []):
+                            for x in flat:
+                                if not x.startswith('arg:'):
+                                    continue
+                                n_arg = int(x.split(':')[1])
+                                if n_arg - 1 >= len(tm['args']):
+                                    continue
+                                k, v = mirq.chase_op(cb, tm['args'][n_arg - 1])
+                                if k != 'arg' or v < 2:
+                                    continue
+                                for pb, pi, pj in mirq.closure_creation_sites(mir, cb.id):
+                                    cl_local = pb.blocks[pi]['stmts'][pj]['place']['l']
+                                    for pbb, pt in pb.calls():
+                                        if not any(op_local(a) == cl_local for a in pt['args']) or not re.search(r'Option::(and_then|map|map_or|map_or_else)$', strip_generics(pt.get('callee') or pt.get('decl') or '')):
+                                            continue
+                                        k2, v2 = mirq.chase_op(pb, pt['args'][0])
+                                        pl2 = op_place(pt['args'][0])
+                                        names2 = [e.get('n') for e in (pl2['p'] if pl2 else []) if isinstance(e, dict)]
+                                        if k2 == 'rv' and v2[2]['rv']['k'] in ('use', 'copyderef'):
+                                            q = v2[2]['rv'].get('place') or op_place(v2[2]['rv']['op'])
+                                            names2 += [e.get('n') for e in (q['p'] if q else []) if isinstance(e, dict)]
+                                        if (idsrc == 'arg' and k2 == 'arg') or idsrc in names2:
+                                            ok = True
         r6.inst({'body': nid, 'compares template.id with': idsrc}, ok=ok, kind=nid)
         if not ok:
             r6.fail('%s/id-compare' % nid, 'src/runtime_scope.rs', 'the ancestor walk does not compare template.id with the recorded parent id')
@@ -564,3 +595,24 @@ def forward_closure(ctx):
         if not ok:
             r10.fail('scope_ancestor_at_depth/expect-parent', mirq.site(b, panics[0]), 'pending captures are resolved through lexical parent links with expect(): a function value that escaped its creating activation (returned, stored) has no such parent; when it, or something it calls, still holds a pending forward capture the interpreter panics instead of finding the cell')
     r10.need(1)
+
+    r11 = ctx.rule('R03.11', 'the search for a function\'s lexical parent falls back to the root of the call stack')
+    # the walker(s): bodies of runtime_scope.rs that compare a template id with a parent id (found by R03.6's recogniser).  A
+    # function value that escaped the call that created it has no lexical parent link; a function declared at the root must still
+    # find the root scope, which is the bottom of every call stack: the walker must read the caller link when the lexical
+    # chain is exhausted.
+    adt = mir.adts.get('runtime_scope::RuntimeScope')
+    has_field = bool(adt) and any(f['name'] == 'stack_parent' for v in adt['variants'] for f in v['fields'])
+    readers = [b for b in mir.bodies if b.file == 'src/runtime_scope.rs' and any(
+        any(isinstance(e, dict) and e.get('n') == 'stack_parent' and e.get('adt') == 'runtime_scope::RuntimeScope' for e in p['p'])
+        for i, j, s in b.stmts() for m_, p in mirq.places_in_stmt(s) if m_ != 'w')]
+    walkers = [b for b in mir.bodies if b.file == 'src/runtime_scope.rs' and any(
+        s['k'] == 'assign' and s['rv']['k'] == 'bin' and s['rv']['op'] == 'Eq' and any(
+            (lambda kk, vv: kk == 'rv' and vv[2]['rv']['k'] == 'use' and op_place(vv[2]['rv']['op']) is not None and any(isinstance(e, dict) and e.get('n') == 'id' and e.get('adt') == 'runtime_scope::RuntimeScopeTemplate' for e in op_place(vv[2]['rv']['op'])['p']))(*mirq.chase_op(b, o))
+            for o in (s['rv']['a'], s['rv']['b']))
+        for i, j, s in b.stmts())]
+    ok = has_field and any(w in readers for w in walkers)
+    r11.inst({'parent_search_bodies': [w.nid for w in walkers], 'caller_link_read_by_the_search': ok}, ok=ok)
+    if not ok:
+        r11.fail('scope-parent-search/no-root-fallback', mirq.site(walkers[0], 0) if walkers else 'src/runtime_scope.rs', 'the lexical parent of a called function is searched along the lexical links of the calling scope only: called from a function value that escaped its creator (no lexical link), even a function declared at the root finds no parent, and a pending forward capture then panics ("ran out of scope parents at runtime")')
+    r11.need(1)
